@@ -16,7 +16,10 @@
 
 package verifhook
 
-import "context"
+import (
+	"context"
+	"io"
+)
 
 // Enabled says whether the hooks are compiled in.
 const Enabled = false
@@ -33,3 +36,7 @@ func Shorten(name string, p []byte) ([]byte, error) { return p, nil }
 
 // JobContext returns the context for the index-th job of a parallel section.
 func JobContext(ctx context.Context, index int) context.Context { return ctx }
+
+// Writer returns w with every Write passed through Shorten under the given name, for
+// files that are written directly rather than through a storage bucket.
+func Writer(name string, w io.Writer) io.Writer { return w }
